@@ -9,24 +9,64 @@
 (* behaviours of Run(p) form a single observation.  A case lists the       *)
 (* observations <<kind, printed value or error text, stdout>> of N runs    *)
 (* (fresh interpreters of one process with other interpreters created and  *)
-(* used in between; fresh processes, each with new map iteration seeds);   *)
-(* the spec requires them to be one observation.                           *)
+(* used in between; processes that ran the other programs in different     *)
+(* orders, each with new map iteration seeds; processes whose first        *)
+(* interpreter was hostile to the process-wide tables); the spec requires  *)
+(* them to be one observation.                                             *)
+(*                                                                         *)
+(* Named deviations (enabled by VERIF_DEVS, verdict known:<id>).  Next to  *)
+(* each observation the run records facts about the process before the run *)
+(* (c.pre[i], a sequence of <<tag, a, b>>):                                *)
+(*   <<"T", name, digest>>  an EARLIER interpreter declared (struct name   *)
+(*          ...) and the program uses name without declaring the struct    *)
+(*          itself;                                                        *)
+(*   <<"L", digest, "">>    the list of registered types, for a program    *)
+(*          that asks for it (typelist);                                   *)
+(*   <<"R", digest, "">>    the Go-registered types that an earlier        *)
+(*          interpreter's script replaced by a struct of the same name     *)
+(*          (new interpreters no longer import them);                      *)
+(*   <<"G", digest, "">>    Go types registered by a SCRIPT of an earlier  *)
+(*          interpreter (registerDemoFunctions) since the process began.   *)
+(* shared-registry: the types that scripts declare live in one table per   *)
+(*   process, so a run may depend on its T, L and R facts -- and on        *)
+(*   nothing else: runs with the same T, L and R facts must still agree.   *)
+(* script-registers-go: likewise for the G facts.                          *)
+(* With a deviation off its facts explain nothing (ProcessHist.tla states  *)
+(* the requirement they break).                                            *)
 (***************************************************************************)
-EXTENDS Integers, Sequences, Json, IOUtils, TLC
+EXTENDS Integers, Sequences, FiniteSets, Json, IOUtils, TLC, SequencesExt
 
 ASSUME TLCSet(11, ndJsonDeserialize(IOEnv.VERIF_TRACE))
 Cases == TLCGet(11)
 
+DevList == "," \o (IF "VERIF_DEVS" \in DOMAIN IOEnv THEN IOEnv.VERIF_DEVS ELSE "") \o ","
+DevOn(d) == ReplaceFirstSubSeq("", "," \o d \o ",", DevList) # DevList
+
+Deviations == << [id |-> "shared-registry", tags |-> {"T", "L", "R"}],
+                 [id |-> "script-registers-go", tags |-> {"G"}] >>
+
 VARIABLES ci, verdict
 tvars == <<ci, verdict>>
 
+Facts(c, i, tags) == {c.pre[i][k] : k \in {k \in 1..Len(c.pre[i]) : c.pre[i][k][1] \in tags}}
+OnTags == UNION {Deviations[d].tags : d \in {d \in 1..Len(Deviations) : DevOn(Deviations[d].id)}}
+
 Judge(c) ==
-    IF Len(c.obs) < 4 THEN <<"bad", "too-few-runs">>
-    ELSE IF \E i \in 1..Len(c.obs) : c.obs[i][1] \in {"budget"} THEN <<"skip", "budget">>
-    ELSE IF \A i \in 2..Len(c.obs) : c.obs[i] = c.obs[1] THEN <<"ok", "one-behaviour">>
-    ELSE LET j == CHOOSE i \in 2..Len(c.obs) : c.obs[i] # c.obs[1] IN
-         <<"bad", IF c.runs[j] = "process" /\ \A i \in 2..Len(c.obs) : c.runs[i] # "process" => c.obs[i] = c.obs[1]
-                  THEN "differs-between-processes" ELSE "differs-within-process">>
+    LET n == Len(c.obs) IN
+    IF n < 4 \/ Len(c.pre) # n \/ Len(c.runs) # n THEN <<"bad", "too-few-runs">>
+    ELSE IF \E i \in 1..n : c.obs[i][1] \in {"budget"} THEN <<"skip", "budget">>
+    ELSE IF \A i \in 2..n : c.obs[i] = c.obs[1] THEN <<"ok", "one-behaviour">>
+    ELSE IF \A i, j \in 1..n : Facts(c, i, OnTags) = Facts(c, j, OnTags) => c.obs[i] = c.obs[j]
+         THEN (* the observation is a function of the facts that an enabled deviation speaks about *)
+              LET d == CHOOSE d \in 1..Len(Deviations) :
+                          /\ DevOn(Deviations[d].id)
+                          /\ \E i, j \in 1..n : /\ c.obs[i] # c.obs[j]
+                                                /\ Facts(c, i, Deviations[d].tags) # Facts(c, j, Deviations[d].tags)
+              IN <<"known:" \o Deviations[d].id, "history">>
+    ELSE LET p == CHOOSE p \in (1..n) \X (1..n) :
+                     /\ c.obs[p[1]] # c.obs[p[2]]
+                     /\ Facts(c, p[1], OnTags) = Facts(c, p[2], OnTags)
+         IN <<"bad", c.runs[p[1]] \o "/" \o c.runs[p[2]]>>
 
 TInit == ci \in 1..Len(Cases) /\ verdict = "run"
 TStep == /\ verdict = "run"
